@@ -315,8 +315,10 @@ fn main() {
                 for o in &others {
                     if let Ok(l) = run_sub(&o.bin, tier, &["--digests".into(), "--op".into(), name.clone(), "--range".into(), format!("{idx}..{}", idx + 1)]) {
                         if let Some(line) = l.iter().find(|x| x.len() >= 6 && x[0] == "R") {
-                            if line[4] != mc::hex(&mine[0].raw) {
+                            if line[5] != mc::hex(&mine[0].canon) {
                                 r.violation(&format!("{}:profile-divergence", op.name), json!({"case": case_json(op, idx), "other_build": o.tag}));
+                            } else if line[4] != mc::hex(&mine[0].raw) {
+                                r.violation(&format!("{}:profile-divergence:NaN-payload-only", op.name), json!({"case": case_json(op, idx), "other_build": o.tag}));
                             }
                         }
                     }
@@ -355,36 +357,73 @@ fn main() {
 
     let mut total_special = 0u64;
     let mut per_op = serde_json::Map::new();
-    let mut sampled = 0;
-    for op in &ops {
-        if r.elapsed_s() > soft_cap_s || r.over_budget_frac(0.92) {
-            r.cap_hit(&format!("op {} ({} inputs) not run: wall cap", op.name, op.n));
+
+    // Work plan: (op index, first chunk, end chunk).  Streams up to 2^24 inputs are one unit; the
+    // 2^32 sweeps are cut into 16 windows of 256 chunks (2^28 bit patterns, i.e. one value of the
+    // top 4 bits: sign + 3 exponent bits) and scheduled ROUND-ROBIN over the ops, most informative
+    // window first, so that a wall cap leaves every op with the same, stated, fully compared part.
+    //   3,4 / 11,12: |x| in [2^-31, 2^33) positive / negative (all of trig's interesting range)
+    //   7, 15: huge, inf, NaN     0, 8: zero, subnormals, tiny     then the remaining exponents.
+    const WINDOW_ORDER: [usize; 16] = [3, 4, 11, 12, 7, 0, 15, 8, 2, 5, 10, 13, 1, 6, 9, 14];
+    let mut plan: Vec<(usize, usize, usize)> = Vec::new();
+    for (i, op) in ops.iter().enumerate() {
+        if op.n <= (1 << 24) {
+            plan.push((i, 0, chunks(op.n).len()));
+        }
+    }
+    for w in WINDOW_ORDER {
+        for (i, op) in ops.iter().enumerate() {
+            if op.n > (1 << 24) {
+                plan.push((i, w * 256, (w + 1) * 256));
+            }
+        }
+    }
+    struct Prog {
+        st: Stats,
+        done: Vec<(usize, usize)>,
+        wall: f64,
+        skipped: usize,
+    }
+    let mut prog: Vec<Prog> = ops.iter().map(|_| Prog { st: Stats::default(), done: Vec::new(), wall: 0.0, skipped: 0 }).collect();
+    let mut capped = false;
+    for (i, c0, c1) in plan {
+        let op = &ops[i];
+        if capped || r.elapsed_s() > soft_cap_s || r.over_budget_frac(0.92) {
+            capped = true;
+            prog[i].skipped += c1 - c0;
             continue;
         }
         let t0 = r.elapsed_s();
         let cs = chunks(op.n);
         let keys = op.n <= (1 << 20);
-        // big sweeps are processed in windows of 256 chunks (2^28 inputs) so that the wall cap can
-        // stop between windows; what was fully compared is recorded.
-        let window = 256usize;
-        let mut st = Stats::default();
-        let mut done_chunks = 0usize;
-        let mut c0 = 0usize;
-        while c0 < cs.len() {
-            if c0 > 0 && (r.elapsed_s() > soft_cap_s || r.over_budget_frac(0.92)) {
-                r.cap_hit(&format!("op {}: sweep stopped by the wall cap after {} of {} chunks ({} of {} inputs fully checked and compared across profiles)", op.name, c0, cs.len(), cs[c0].0, op.n));
-                break;
-            }
-            let c1 = (c0 + window).min(cs.len());
-            let res: Vec<RangeOut> = cs[c0..c1].par_iter().map(|&(a, b)| run_range(op, a, b, true, keys)).collect();
-            let mut mine = Vec::with_capacity(res.len());
-            for mut x in res {
-                st.merge(std::mem::take(&mut x.stats));
-                mine.push(x);
-            }
-            differential(&r, op, c0, &mine, &others, &prefetched, tier);
-            done_chunks = c1;
-            c0 = c1;
+        let res: Vec<RangeOut> = cs[c0..c1].par_iter().map(|&(a, b)| run_range(op, a, b, true, keys)).collect();
+        let mut mine = Vec::with_capacity(res.len());
+        for mut x in res {
+            prog[i].st.merge(std::mem::take(&mut x.stats));
+            mine.push(x);
+        }
+        differential(&r, op, c0, &mine, &others, &prefetched, tier);
+        prog[i].done.push((c0, c1));
+        prog[i].wall += r.elapsed_s() - t0;
+        if op.n > (1 << 24) {
+            println!("[C19] {:<18} window bits {:x}0000000..{:x}fffffff done  {:.1}s (t={:.0}s)", op.name, c0 / 256, c0 / 256, r.elapsed_s() - t0, r.elapsed_s());
+        }
+    }
+    let mut sampled = 0;
+    for (i, op) in ops.iter().enumerate() {
+        let Prog { st, done, wall, skipped } = std::mem::replace(&mut prog[i], Prog { st: Stats::default(), done: Vec::new(), wall: 0.0, skipped: 0 });
+        let total_chunks = chunks(op.n).len();
+        let done_chunks: usize = done.iter().map(|(a, b)| b - a).sum();
+        if skipped > 0 {
+            let wins: Vec<String> = done.iter().map(|(a, _)| format!("{:x}", a / 256)).collect();
+            r.cap_hit(&format!(
+                "op {}: wall cap: {} of {} chunks ({} of {} inputs) fully checked and compared across profiles{}",
+                op.name, done_chunks, total_chunks, (done_chunks as u64) << 20, op.n,
+                if op.n > (1 << 24) { format!("; completed 2^28-windows (top hex digit of the bit pattern): [{}]", wins.join(",")) } else { String::new() }
+            ));
+        }
+        if done_chunks == 0 {
+            continue;
         }
         r.eval(st.evals);
         r.nontrivial_many(st.nontrivial.iter().copied());
@@ -404,9 +443,9 @@ fn main() {
             r.sample(case_json(op, idx.min(op.n - 1)));
             sampled += 1;
         }
-        per_op.insert(op.name.to_string(), json!({"inputs": op.n, "chunks": cs.len(), "chunks_done": done_chunks, "distinct_outputs_seen": nd, "special_inputs": st.special_inputs,
-            "panics_finite_inputs": st.panics_in_domain, "panics_nonfinite_inputs": st.panics_outside_domain, "skipped_outside_domain": st.empty_outputs, "wall_s": ((r.elapsed_s() - t0) * 100.0).round() / 100.0}));
-        println!("[C19] {:<18} n={:<11} distinct>={:<5} special={:<10} {:.1}s", op.name, op.n, nd, st.special_inputs, r.elapsed_s() - t0);
+        per_op.insert(op.name.to_string(), json!({"inputs": op.n, "chunks": total_chunks, "chunks_done": done_chunks, "distinct_outputs_seen": nd, "special_inputs": st.special_inputs,
+            "panics_finite_inputs": st.panics_in_domain, "panics_nonfinite_inputs": st.panics_outside_domain, "skipped_outside_domain": st.empty_outputs, "wall_s": (wall * 100.0).round() / 100.0}));
+        println!("[C19] {:<18} n={:<11} chunks {}/{} distinct>={:<5} special={:<10} {:.1}s", op.name, op.n, done_chunks, total_chunks, nd, st.special_inputs, wall);
     }
     r.note("per_op", Value::Object(per_op));
 
